@@ -283,8 +283,8 @@ Print Assumptions C14_ts_member_shape.
 (* ------------------------------------------------------------------ "foreign" = "does not follow the naming pattern" *)
 Require Import FL.Flw.NumListing FL.Flw.CleanupFacts FL.Time.TsFormat FL.Flw.MemberPattern.
 (* The member tests in the hypotheses above accept EXACTLY the names of the logger's own naming pattern: the configured name
-   parts, an infix of the ACTIVE naming - "r" and one or more digits, nothing else, for the number namings; what chrono reads
-   as r%Y-%m-%d_%H-%M-%S for the time-stamp namings -, optionally a restart counter, the configured suffix, optionally ".gz"
+   parts, an infix of the ACTIVE naming - "r" and one or more digits, nothing else, for the number namings; a time stamp r%Y-%m-%d_%H-%M-%S for the time-stamp namings: chrono reads it
+   AND it is exactly the text that the format writes for the instant read (canonical_ts: no blanks, signs, unpadded numbers) -, optionally a restart counter, the configured suffix, optionally ".gz"
    (the archive of a file with the suffix "gz" has no second ".gz"); or the rCURRENT file where the naming has one. *)
 Theorem C14_num_member_pattern c n :
   num_member c n = true <->
@@ -303,14 +303,14 @@ Proof. exact (numd_member_iff c n). Qed.
 
 Theorem C14_tsd_member_pattern c n :
   tsd_member c n = true <->
-  exists i rs gz, parse_ts_local std_fmt i <> None /\ no_dot i /\ restart_part rs /\ (gz = [] \/ gz = dot_gz)
+  exists i rs gz, canonical_ts std_fmt i = true /\ no_dot i /\ restart_part rs /\ (gz = [] \/ gz = dot_gz)
     /\ n = under (fixed0 c) ++ i ++ rs ++ sfxs (c_spec c) ++ gz.
 Proof. exact (tsd_member_iff c n). Qed.
 
 Theorem C14_ts_member_pattern c n :
   ts_member c n = true <->
   n = cname c \/
-  exists i rs gz, parse_ts_local std_fmt i <> None /\ no_dot i /\ restart_part rs /\ (gz = [] \/ gz = dot_gz)
+  exists i rs gz, canonical_ts std_fmt i = true /\ no_dot i /\ restart_part rs /\ (gz = [] \/ gz = dot_gz)
     /\ n = under (fixed0 c) ++ i ++ rs ++ sfxs (c_spec c) ++ gz.
 Proof. exact (ts_member_iff c n). Qed.
 
